@@ -41,7 +41,13 @@ def tank_spec(shape, init, tlink, second, pat, hyd, leak, diam=5.0, lim=(1.0, 5.
         nodes.append(J("J2", 5.0, [[0.004, "D", None]]))
         links.append(P("p3", "T", "J2", L=300.0, D=0.15))
     if two:
-        nodes.append(T("T2", elev=31.0, init=2.0, mn=0.5, mx=4.0, diam=4.0))
+        t2 = T("T2", elev=31.0, init=2.0, mn=0.5, mx=4.0, diam=4.0)
+        if two == "vc":
+            # a second, volume-curve tank registered AFTER the first one, close to its maximum level: it is shut off early
+            # and then idles (net inflow exactly zero) while the first tank keeps moving
+            t2 = T("T2", elev=30.5, init=3.6, mn=0.5, mx=4.0, diam=4.0)
+            t2["vcurve"] = [[0.0, 0.0], [1.0, 8.0], [3.0, 40.0], [5.0, 60.0]]
+        nodes.append(t2)
         links.append(P("p4", "J1", "T2", L=150.0, D=0.2))
     s = spec(nodes, links, OPTS(dur=10 * 3600, hyd=hyd, pat=3600, rep="ALL"), patterns={"D": PATTERNS[pat]})
     s["id"] = {"shape": shape, "init": init, "tlink": tlink, "second": second, "pat": pat, "hyd": hyd, "leak": leak,
@@ -55,6 +61,8 @@ def cases(tier):
             ("cyl", "vc_wide", "vc_tight"), ("mid", "min", "max"), ("pipe", "rpipe", "cv_in", "cv_out", "pump_in"),
             (False, True), sorted(PATTERNS), (3600, 900), (False, True)):
         out.append(tank_spec(shape, init, tlink, second, pat, hyd, leak))
+    for shape, init, tlink, pat in itertools.product(("cyl", "vc_wide"), ("mid", "min", "max"), ("pipe", "rpipe"), sorted(PATTERNS)):
+        out.append(tank_spec(shape, init, tlink, False, pat, 3600, False, two="vc"))
     # user controls in the same hydraulic steps as the tank events: an unrelated thin pipe px toggled 50 minutes into every
     # hour by time controls of low / default / high priority (the tank's own limit handling must not depend on them)
     for shape, init, tlink, pat, prio in itertools.product(("cyl", "vc_wide") if tier == "quick" else ("cyl", "vc_wide", "vc_tight"),
